@@ -30,7 +30,10 @@ def rnd_val(rng, special=0.2):
         return float("inf")
     if r < special:
         return float("-inf")
-    return float(rng.randint(-24, 24)) / rng.choice([1, 1, 2, 4, 8])
+    v = float(rng.randint(-24, 24)) / rng.choice([1, 1, 2, 4, 8])
+    if rng.random() < 0.15:
+        v += rng.choice([-2, -1, 1, 2]) * 2.0 ** -30       # a near tie: close to, but not equal to, another value of the pool
+    return v
 
 
 # ---------------------------------------------------------------- part A: tracker
@@ -39,8 +42,11 @@ def gen_tracker_case(rng):
     # direction passed by the oracle for the objective metric (None for the others)
     objdir = {n: rng.choice([None, None, "min", "max"]) for n in names}
     reps = []
+    converging = rng.random() < 0.2       # a curve that has converged: all values within a few 2^-30 of each other
+    base = float(rng.randint(-8, 8)) / rng.choice([1, 2, 8])
     for _ in range(rng.randint(0, 14)):
-        reps.append((rng.choice(names), rnd_val(rng, rng.choice([0.0, 0.2, 0.5])), rng.choice([0, 1, 2, 3, 3, 7, -1])))
+        v = base + rng.randint(-3, 3) * 2.0 ** -30 if converging else rnd_val(rng, rng.choice([0.0, 0.2, 0.5]))
+        reps.append((rng.choice(names), v, rng.choice([0, 1, 2, 3, 3, 7, -1])))
     return dict(kind="tracker", names=names, objdir=objdir, reps=reps)
 
 
